@@ -1045,6 +1045,10 @@ impl<Writer: Write> Muxer<Writer> {
                 is_key
             }
             VideoCodec::Vp9 => {
+                if data.len() < 3 {
+                    // Too short to hold the frame marker: not a key frame (and not a panic).
+                    return false;
+                }
                 // Use VP9 keyframe detection
                 let is_key = is_vp9_keyframe(data).unwrap_or(false);
 
